@@ -1507,6 +1507,47 @@ fn base_o2i(seed: u64) -> Base {
     }
 }
 
+
+/// Sapling spend -> 2 Sapling outputs, v5 (after pczt/tests/end_to_end.rs::sapling_to_orchard).
+fn base_s2s(seed: u64) -> Base {
+    let extsk = sapling::zip32::ExtendedSpendingKey::master(&[1; 32]);
+    let dfvk = extsk.to_diversifiable_full_viewing_key();
+    let internal = extsk.derive_internal().to_diversifiable_full_viewing_key();
+    let recipient = dfvk.default_address().1;
+    let note = sapling::Note::from_parts(recipient, sapling::value::NoteValue::from_raw(1_000_000), sapling::Rseed::AfterZip212([7; 32]));
+    let leaf = sapling::Node::from_cmu(&note.cmu());
+    let mut tree = ShardTree::<_, 32, 16>::new(MemoryShardStore::<sapling::Node, u32>::empty(), 100);
+    tree.append(leaf, incrementalmerkletree::Retention::Marked).unwrap();
+    tree.checkpoint(9_999_999).unwrap();
+    let path = tree.witness_at_checkpoint_depth(0.into(), 0).unwrap().unwrap();
+    let anchor: sapling::Anchor = path.root(leaf).into();
+    let mut builder = Builder::new(network(false), 10_000_000.into(), standard_cfg(Some(anchor), None, None));
+    builder.add_sapling_spend::<zip317::FeeRule>(dfvk.fvk().clone(), note, path).expect("sapling spend");
+    builder
+        .add_sapling_output::<zip317::FeeRule>(Some(dfvk.to_ovk(zip32::Scope::External)), recipient, Zatoshis::const_from_u64(100_000), MemoBytes::empty())
+        .expect("sapling output");
+    builder
+        .add_sapling_output::<zip317::FeeRule>(
+            Some(dfvk.to_ovk(zip32::Scope::Internal)),
+            internal.find_address(0u32.into()).unwrap().1,
+            Zatoshis::const_from_u64(890_000),
+            MemoBytes::empty(),
+        )
+        .expect("sapling change");
+    let PcztResult { pczt_parts, sapling_meta, .. } =
+        builder.build_for_pczt(ChaCha20Rng::seed_from_u64(seed ^ 0x0505), &zip317::FeeRule::standard()).expect("build_for_pczt");
+    let idx = sapling_meta.spend_index(0).unwrap();
+    let pre = Creator::build_from_parts(pczt_parts).expect("creator");
+    // the spend's proof generation key (needed by Signer and Prover) is the Updater's to add
+    let pgk = extsk.expsk.proof_generation_key();
+    let pre = Updater::new(pre)
+        .update_sapling_with(|mut u| u.update_spend_with(idx, |mut s| s.set_proof_generation_key(pgk.clone())))
+        .expect("updater")
+        .finish();
+    let pczt = IoFinalizer::new(pre.clone()).finalize_io().expect("io finalizer");
+    Base { name: "s2s", pre, pczt, tkeys: vec![], orchard_ask: None, ironwood_ask: None, sapling_ask: Some((idx, extsk.expsk.ask)), deferred: None }
+}
+
 struct MergeInput {
     trees: BTreeMap<usize, Vec<Vec<u64>>>,
     cases: Vec<J>,
@@ -1534,7 +1575,7 @@ fn logical_of(p: &Pczt) -> V {
 }
 
 fn bases_for(tier: &str, seed: u64) -> Vec<Base> {
-    let mut v = vec![base_transparent(seed), base_t2o(seed), base_o2o(seed), base_o2i(seed)];
+    let mut v = vec![base_transparent(seed), base_t2o(seed), base_o2o(seed), base_o2i(seed), base_s2s(seed)];
     if tier == "thorough" {
         let _ = &mut v;
     }
@@ -1578,7 +1619,7 @@ fn bindings_for(k: &str, idx: usize, base_name: &str, flat: &[Target], eq: &[Tar
             if base_name == "transparent" { vec![Binding::default()] } else { vec![] }
         }
         "listsO" => {
-            if base_name != "transparent" { vec![Binding::default()] } else { vec![] }
+            if matches!(base_name, "t2o" | "o2o" | "o2i_v6") { vec![Binding::default()] } else { vec![] }
         }
         _ => panic!("unknown case kind {k}"),
     }
@@ -2186,8 +2227,11 @@ enum Op {
     UpdTout { j: usize, f: u8, tag: u8 },
     /// f: 0 spend proprietary, 1 output proprietary, 2 output user address, 3 spend zip32, 4 output zip32
     UpdAct { pool: Pool, i: usize, f: u8, tag: u8 },
+    /// spend: f 0 proprietary, 1 zip32; output: f 0 proprietary, 1 zip32, 2 user address
+    UpdSap { spend: bool, i: usize, f: u8, tag: u8 },
     SignT { i: usize },
     SignAct { pool: Pool },
+    SignSap,
     Redact { r: usize, idx: Option<usize> },
     Compact { pool: Pool },
     Resolve,
@@ -2207,12 +2251,23 @@ fn tin_class(f: u8) -> &'static str {
 fn tout_class(f: u8) -> &'static str {
     ["transparent.outputs[].proprietary{}", "transparent.outputs[].user_address", "transparent.outputs[].bip32_derivation{}"][f as usize]
 }
+fn sap_class(spend: bool, f: u8) -> &'static str {
+    if spend {
+        ["sapling.spends[].proprietary{}", "sapling.spends[].zip32_derivation"][f as usize]
+    } else {
+        ["sapling.outputs[].proprietary{}", "sapling.outputs[].zip32_derivation", "sapling.outputs[].user_address"][f as usize]
+    }
+}
 fn act_class(pool: Pool, f: u8) -> String {
     format!(
         "{}.actions[].{}",
         pool.name(),
         ["spend.proprietary{}", "output.proprietary{}", "output.user_address", "spend.zip32_derivation", "output.zip32_derivation"][f as usize]
     )
+}
+
+fn have_proof_keys(keys: &ProvingKeys) -> bool {
+    keys.orchard_v5.is_some() || keys.orchard_v6.is_some()
 }
 
 struct ProvingKeys {
@@ -2228,8 +2283,10 @@ impl Op {
             Op::UpdTin { f, .. } => ("update", tin_class(*f).into()),
             Op::UpdTout { f, .. } => ("update", tout_class(*f).into()),
             Op::UpdAct { pool, f, .. } => ("update", act_class(*pool, *f)),
+            Op::UpdSap { spend, f, .. } => ("update", sap_class(*spend, *f).into()),
             Op::SignT { .. } => ("sign_t", "".into()),
             Op::SignAct { pool } => ("sign_s", pool.name().into()),
+            Op::SignSap => ("sign_s", "sapling".into()),
             Op::Redact { r, .. } => ("redact", reds[*r].class.clone()),
             Op::Compact { pool } => ("compact", pool.name().into()),
             Op::Resolve => ("resolve", "".into()),
@@ -2306,9 +2363,39 @@ impl Op {
                     Pool::Ironwood => Updater::new(p).update_ironwood_with(upd).map(|u| u.finish()).map_err(|x| e(&x)),
                 }
             }
+            Op::UpdSap { spend, i, f, tag } => Updater::new(p)
+                .update_sapling_with(|mut u| {
+                    let z = || sapling::pczt::Zip32Derivation::parse([*tag; 32], vec![32 | (1 << 31), 133 | (1 << 31), (*tag as u32) | (1 << 31)]).expect("zip32");
+                    if *spend {
+                        u.update_spend_with(*i, |mut x| {
+                            match f {
+                                0 => x.set_proprietary("verif.key0".into(), vec![*tag]),
+                                _ => x.set_zip32_derivation(z()),
+                            }
+                            Ok(())
+                        })
+                    } else {
+                        u.update_output_with(*i, |mut x| {
+                            match f {
+                                0 => x.set_proprietary("verif.key0".into(), vec![*tag]),
+                                1 => x.set_zip32_derivation(z()),
+                                _ => x.set_user_address(format!("verif-address-{tag}")),
+                            }
+                            Ok(())
+                        })
+                    }
+                })
+                .map(|u| u.finish())
+                .map_err(|x| e(&x)),
             Op::SignT { i } => {
                 let mut s = Signer::new(p).map_err(|x| e(&x))?;
                 s.sign_transparent(*i, &base.tkeys[*i]).map_err(|x| e(&x))?;
+                Ok(s.finish())
+            }
+            Op::SignSap => {
+                let mut s = Signer::new(p).map_err(|x| e(&x))?;
+                let (i, ask) = base.sapling_ask.as_ref().ok_or("no sapling spend")?;
+                s.sign_sapling(*i, ask).map_err(|x| e(&x))?;
                 Ok(s.finish())
             }
             Op::SignAct { pool } => {
@@ -2565,6 +2652,7 @@ fn pick_op(rng: &mut ChaCha20Rng, base: &Base, reds: &[RedactDef], l: &V, ncopie
     let n_out = list_len(l, "tout");
     let n_act = list_len(l, "orchard");
     let n_iw = list_len(l, "ironwood");
+    let (n_ss, n_so) = (list_len(l, "sspend"), list_len(l, "soutput"));
     let compact = {
         let (sa, so) = (s_action(Form::Logical), s_ooutput(Form::Logical));
         [P_ACT.to_vec(), vec![Step::F(4), Step::F(0)]].iter().any(|p| {
@@ -2586,30 +2674,37 @@ fn pick_op(rng: &mut ChaCha20Rng, base: &Base, reds: &[RedactDef], l: &V, ncopie
             4 | 5 if n_iw > 0 => Op::UpdAct { pool: Pool::Ironwood, i: rng.gen_range(0..n_iw), f: rng.gen_range(0..5), tag },
             5..=8 if n_in > 0 => Op::SignT { i: rng.gen_range(0..n_in) },
             6 | 7 if base.orchard_ask.is_some() => Op::SignAct { pool: Pool::Orchard },
+            6 | 7 if base.sapling_ask.is_some() => Op::SignSap,
+            1 | 2 if n_ss > 0 => Op::UpdSap { spend: true, i: rng.gen_range(0..n_ss), f: rng.gen_range(0..2), tag },
+            3 | 4 if n_so > 0 => Op::UpdSap { spend: false, i: rng.gen_range(0..n_so), f: rng.gen_range(0..3), tag },
             9..=11 => {
-                let r = rng.gen_range(0..reds.len());
+                // a redaction that applies to this PCZT
+                let applicable: Vec<usize> = (0..reds.len())
+                    .filter(|r| {
+                        let d = &reds[*r];
+                        if !d.list.is_empty() && list_len(l, d.list) == 0 {
+                            return false;
+                        }
+                        // (documented preconditions) a compact field can only be re-derived while its note
+                        // fields are there; anchors are authorising data only in a v6 transaction
+                        if (d.note_field && compact) || (d.class.ends_with(".anchor") && !v6) {
+                            return false;
+                        }
+                        // "`rho` must be provided whenever `rseed` is provided" (orchard crate): rho goes
+                        // only after rseed
+                        if d.class.ends_with("spend.rho") {
+                            let pool_path: Vec<Step> = if d.list == "orchard" { P_ACT.to_vec() } else { vec![Step::F(4), Step::F(0)] };
+                            let (sa, sp) = (s_action(Form::Logical), s_ospend(Form::Logical));
+                            if at(l, &pool_path).seq().iter().any(|a| a.field(&sa, "spend").field(&sp, "rseed").opt().is_some()) {
+                                return false;
+                            }
+                        }
+                        true
+                    })
+                    .collect();
+                let r = *applicable.choose(rng).expect("some redaction applies");
                 let d = &reds[r];
                 let n = list_len(l, d.list);
-                if !d.list.is_empty() && n == 0 {
-                    continue;
-                }
-                // (documented precondition) a compact field can only be re-derived while its note fields
-                // are there; anchors are authorising data only in a v6 transaction
-                if d.note_field && compact {
-                    continue;
-                }
-                if d.class.ends_with(".anchor") && !v6 {
-                    continue;
-                }
-                // (documented parse rule of the orchard crate) "`rho` must be provided whenever `rseed`
-                // is provided": rho goes only after rseed
-                if d.class.ends_with("spend.rho") {
-                    let pool_path: Vec<Step> = if d.list == "orchard" { P_ACT.to_vec() } else { vec![Step::F(4), Step::F(0)] };
-                    let (sa, sp) = (s_action(Form::Logical), s_ospend(Form::Logical));
-                    if at(l, &pool_path).seq().iter().any(|a| a.field(&sa, "spend").field(&sp, "rseed").opt().is_some()) {
-                        continue;
-                    }
-                }
                 Op::Redact { r, idx: if d.list.is_empty() || rng.gen_bool(0.3) { None } else { Some(rng.gen_range(0..n)) } }
             }
             12 if n_act > 0 => Op::Compact { pool: Pool::Orchard },
@@ -2699,6 +2794,9 @@ fn run_sequence(w: &mut NdjsonWriter, rng: &mut ChaCha20Rng, base: &Base, reds: 
     if base.orchard_ask.is_some() {
         closing.push(Op::SignAct { pool: Pool::Orchard });
     }
+    if base.sapling_ask.is_some() {
+        closing.push(Op::SignSap);
+    }
     if keys.orchard_v5.is_some() || keys.orchard_v6.is_some() {
         if list_len(&proj[0].1, "orchard") > 0 {
             closing.push(Op::Prove { pool: Pool::Orchard });
@@ -2714,8 +2812,8 @@ fn run_sequence(w: &mut NdjsonWriter, rng: &mut ChaCha20Rng, base: &Base, reds: 
     for op in closing {
         all_ok &= apply_logged(w, base, reds, keys, &mut copies, &mut proj, 0, &op, ops_log, stats)?;
     }
-    let needs_proof = list_len(&proj[0].1, "orchard") + list_len(&proj[0].1, "ironwood") > 0;
-    let have_proof = keys.orchard_v5.is_some() || keys.orchard_v6.is_some();
+    let needs_proof = list_len(&proj[0].1, "orchard") + list_len(&proj[0].1, "ironwood") > 0 || base.sapling_ask.is_some();
+    let have_proof = have_proof_keys(keys) && base.sapling_ask.is_none();
     if all_ok && (!needs_proof || have_proof) {
         let p = copies[0].clone();
         let (pj, pl) = (&proj[0].0, &proj[0].1);
@@ -2839,6 +2937,15 @@ fn role_slots(base: &Base, base_l: &V, reds: &[RedactDef]) -> Vec<RoleSlot> {
                 upd(format!("{list}.actions[{i}].{field}"), Box::new(move |tag| Op::UpdAct { pool, i, f, tag }));
             }
         }
+    }
+    for i in 0..list_len(base_l, "sspend").min(1) {
+        upd(format!("sapling.spends[{i}].proprietary{{key0}}"), Box::new(move |tag| Op::UpdSap { spend: true, i, f: 0, tag }));
+        upd(format!("sapling.spends[{i}].zip32_derivation"), Box::new(move |tag| Op::UpdSap { spend: true, i, f: 1, tag }));
+    }
+    for i in 0..list_len(base_l, "soutput").min(1) {
+        upd(format!("sapling.outputs[{i}].proprietary{{key0}}"), Box::new(move |tag| Op::UpdSap { spend: false, i, f: 0, tag }));
+        upd(format!("sapling.outputs[{i}].zip32_derivation"), Box::new(move |tag| Op::UpdSap { spend: false, i, f: 1, tag }));
+        upd(format!("sapling.outputs[{i}].user_address"), Box::new(move |tag| Op::UpdSap { spend: false, i, f: 2, tag }));
     }
     // transparent signatures: the entry of the input's own public key
     let st = s_tin();
@@ -3054,7 +3161,7 @@ fn cmd_roles(trace_path: &str, nseq: usize, tier: &str) {
     let mut failure: Option<J> = None;
     for sidx in 0..nseq {
         // mostly the transparent base (extractable without proofs), in many variants
-        let which = if tier == "thorough" { sidx % 4 } else { [0, 0, 0, 1, 0, 2, 0, 3][sidx % 8] };
+        let which = if tier == "thorough" { sidx % 5 } else { [0, 0, 0, 1, 0, 2, 0, 3, 0, 4][sidx % 10] };
         let varied;
         let base = if which == 0 {
             varied = vary_transparent(&bases[0], &mut rng);
@@ -3136,7 +3243,7 @@ fn probe_lock() {
 }
 
 fn probe() {
-    for b in [base_transparent(1), base_t2o(1), base_o2o(1), base_o2i(1)] {
+    for b in [base_transparent(1), base_t2o(1), base_o2o(1), base_o2i(1), base_s2s(1)] {
         let l = logical_of(&b.pczt);
         println!("own zip244 txid: {:?}", zip244::Tx::new(&l).txid().map(|mut t| { t.reverse(); hex(&t) }));
         let bytes = b.pczt.clone().serialize().unwrap();
